@@ -247,7 +247,11 @@ def distribution(corpus: Corpus, mout):
     table = {}
     distinct = set()
     for o, m in zip(corpus.ops, mout):
-        kind = m.split(' ')[0] + ('-' + m.split(' ')[1] if m.startswith('err') else '')
+        t0 = m.split(' ')[0]
+        if t0.startswith('x') or '=' in t0:
+            kind = 'text'
+        else:
+            kind = t0 + ('-' + m.split(' ')[1] if m.startswith('err ') else '')
         key = '%s/%s' % (o.cls or '-', kind)
         table[key] = table.get(key, 0) + 1
         e = corpus.by_id[o.eid]
